@@ -310,6 +310,14 @@ def SStage.rest (cfg : Cfg) (ts hsa : Nat) : SStage → Nat
   | .done => 2 * cfg.P
   | .pass => cfg.P
 
+/-- Polls that may still pass before the next transmission, times `P`. -/
+def SStage.slack (cfg : Cfg) : SStage → Nat
+  | .c2 => cfg.P
+  | .scan _ => 3 * cfg.P
+  | .await _ => 3 * cfg.P
+  | .done => 2 * cfg.P
+  | .pass => cfg.P
+
 theorem ringView_claim {ts : Nat} {r : TokenRing} (v : RingView [ts] ts r) : RingView [ts] ts r.claimToken :=
   ⟨v.ring, v.mem, v.ts, rfl, v.las, v.nbr⟩
 
@@ -319,12 +327,14 @@ theorem Solo.slot {cfg : Cfg} {n : Net} {x : Nat} {st : NetStation} {l : Int} (h
     st.s.p.slotTime = cfg.slot := by unfold Params.slotTime Cfg.slot; rw [h.bits, h.pslot]
 
 /-- Outcome of one poll of the lone claimant. -/
-def FormOut (cfg : Cfg) (x ts : Nat) (B : Int) (st : NetStation) (n' : Net) (c : Ctx) (now : Int) : Prop :=
+def FormOut (cfg : Cfg) (x ts : Nat) (B : Int) (st : NetStation) (n' : Net) (c : Ctx) (now : Int) (l0 Φ : Int) : Prop :=
   (c.s.st = .useToken ⟨now, none⟩ false ∧ c.tx = some (selfToken ts) ∧ RingView [ts] ts c.s.ring ∧ Inv c.s c.apps ∧
      n'.stations[x]? = some (upSt st c)) ∨
   (∃ (stage' : SStage) (l' : Int), Solo cfg n' x (upSt st c) l' ∧ stage'.ok c.s ∧ RingView [ts] ts c.s.ring ∧ c.s.p = st.s.p ∧
      (c.tx = none ∨ c.tx = some (selfToken ts) ∨ ∃ a, a ≠ ts ∧ c.tx = some (statusRequestBytes a ts)) ∧
-     max now (l' + ((stage'.wait cfg : Nat) : Int)) + ((stage'.rest cfg ts st.s.p.hsa : Nat) : Int) ≤ B)
+     max now (l' + ((stage'.wait cfg : Nat) : Int)) + ((stage'.rest cfg ts st.s.p.hsa : Nat) : Int) ≤ B ∧
+     (c.tx = none → l' = l0 ∧ max now (l' + ((stage'.wait cfg : Nat) : Int)) + ((stage'.slack cfg : Nat) : Int) ≤ Φ) ∧
+     (c.tx ≠ none → now ≤ l'))
 
 /-- **One poll of the lone claimant**: it happens no later than `max(last poll, stamp + wait) + P`; the station
 either completes the formation of its one-station ring (token to itself, `UseToken`) or is in the next stage
@@ -335,7 +345,8 @@ theorem form_step {cfg : Cfg} {n : Net} {x : Nat} {st : NetStation} {l : Int} (h
     (hB : max (n.bus.seen.getD x 0) (l + ((stage.wait cfg : Nat) : Int)) + ((stage.rest cfg st.s.p.address st.s.p.hsa : Nat) : Int) ≤ B) :
     ∃ n' c, n.poll x now = (n', [], some (.ok c)) ∧ n'.bus.seen.getD x 0 = now ∧
       now ≤ max (n.bus.seen.getD x 0) (l + ((stage.wait cfg : Nat) : Int)) + (cfg.P : Nat) ∧
-      FormOut cfg x st.s.p.address B st n' c now := by
+      FormOut cfg x st.s.p.address B st n' c now l
+        (max (n.bus.seen.getD x 0) (l + ((stage.wait cfg : Nat) : Int)) + ((stage.slack cfg : Nat) : Int)) := by
   have hr := hok.rate
   have hmar := hok.margin
   have hc2 := cfg.ce2 hr
@@ -354,10 +365,12 @@ theorem form_step {cfg : Cfg} {n : Net} {x : Nat} {st : NetStation} {l : Int} (h
     unfold upSt; rw [← h.rx]
   -- nothing happens: same stage, same stamp
   have same : ∀ n', Solo cfg n' x st l → now ≤ l + ((stage.wait cfg : Nat) : Int) →
-      FormOut cfg x st.s.p.address B st n' { s := st.s, apps := st.apps, rx := [] } now := by
+      FormOut cfg x st.s.p.address B st n' { s := st.s, apps := st.apps, rx := [] } now l
+        (max (n.bus.seen.getD x 0) (l + ((stage.wait cfg : Nat) : Int)) + ((stage.slack cfg : Nat) : Int)) := by
     intro n' hS hw
     unfold FormOut
-    exact Or.inr ⟨stage, l, by rw [hup]; exact hS, hs, hv, rfl, .inl rfl, by omega⟩
+    exact Or.inr ⟨stage, l, by rw [hup]; exact hS, hs, hv, rfl, .inl rfl, by omega, fun _ => ⟨rfl, by omega⟩,
+      fun h => absurd rfl h⟩
   by_cases hle : now ≤ l
   · obtain ⟨n', hp, hS, hseen⟩ := solo_ongoing h now hle hno.1 hno.2
     exact ⟨n', _, hp, hseen, by omega, same n' hS (by omega)⟩
@@ -391,9 +404,11 @@ theorem form_step {cfg : Cfg} {n : Net} {x : Nat} {st : NetStation} {l : Int} (h
       st.s.gap = .doPoll cur → l + (cfg.b33 : Nat) < now →
       max (n.bus.seen.getD x 0) (l + ((stage.wait cfg : Nat) : Int)) + (cfg.P : Nat) +
         ((remGap st.s.p.address st.s.p.hsa cur * cfg.sweepStep + 2 * cfg.P : Nat) : Int) ≤ B →
+      3 * cfg.P ≤ stage.slack cfg →
       ∀ c, doClaimToken c0 now (fuel + 1) = .ok c → dispatch { s := st.s, apps := st.apps, rx := [] } now = .ok c →
-      ∃ n', n.poll x now = (n', [], some (.ok c)) ∧ n'.bus.seen.getD x 0 = now ∧ FormOut cfg x st.s.p.address B st n' c now := by
-    intro c0 fuel cur hc0 hg hsy hBud c hdc hd
+      ∃ n', n.poll x now = (n', [], some (.ok c)) ∧ n'.bus.seen.getD x 0 = now ∧ FormOut cfg x st.s.p.address B st n' c now l
+        (max (n.bus.seen.getD x 0) (l + ((stage.wait cfg : Nat) : Int)) + ((stage.slack cfg : Nat) : Int)) := by
+    intro c0 fuel cur hc0 hg hsy hBud hsl c hdc hd
     subst hc0
     have hcur := hgapc cur hg
     rcases nextGap_alone st.s.p.address st.s.p.hsa cur hts hcur hhsa with ⟨hrem, hn⟩ | ⟨a, hn, hne, ha, hrem⟩
@@ -403,11 +418,16 @@ theorem form_step {cfg : Cfg} {n : Net} {x : Nat} {st : NetStation} {l : Int} (h
         (fun b hb => by cases hb)
       refine ⟨n', hp, hseen, ?_⟩
       unfold FormOut
-      refine Or.inr ⟨.done, l, hS, ⟨rfl, 0, rfl⟩, hv, rfl, .inl rfl, ?_⟩
-      simp only [SStage.wait, SStage.rest]
-      rw [hrem] at hBud
-      push_cast at hBud ⊢
-      omega
+      refine Or.inr ⟨.done, l, hS, ⟨rfl, 0, rfl⟩, hv, rfl, .inl rfl, ?_, fun _ => ⟨rfl, ?_⟩, fun h => absurd rfl h⟩
+      · simp only [SStage.wait, SStage.rest]
+        rw [hrem] at hBud
+        push_cast at hBud ⊢
+        omega
+      · have e1 : SStage.wait cfg .done = cfg.b33 := rfl
+        have e2 : SStage.slack cfg .done = 2 * cfg.P := rfl
+        rw [e1, e2]
+        push_cast
+        omega
     · rw [claimScan_poll _ now l fuel cur a rfl rfl h.stamp (by rw [hb33]; exact hsy) hg (by rw [hns]; exact hn) hne] at hdc
       cases hdc
       have hst' : (claimReqS { st.s with st := .claimToken .scan } now a).lastBusActivity = some (now + (cfg.b66 : Nat)) := by
@@ -422,7 +442,8 @@ theorem form_step {cfg : Cfg} {n : Net} {x : Nat} {st : NetStation} {l : Int} (h
           omega)
       refine ⟨n', hp, hseen, ?_⟩
       unfold FormOut
-      refine Or.inr ⟨.await a, now + (cfg.b66 : Nat), hS, ⟨rfl, rfl⟩, hv, rfl, .inr (.inr ⟨a, hne, rfl⟩), ?_⟩
+      refine Or.inr ⟨.await a, now + (cfg.b66 : Nat), hS, ⟨rfl, rfl⟩, hv, rfl, .inr (.inr ⟨a, hne, rfl⟩), ?_,
+        (fun h => by cases h), (fun _ => by omega)⟩
       simp only [SStage.wait, SStage.rest]
       rw [← hrem, Nat.add_mul, Nat.one_mul] at hBud
       unfold Cfg.sweepStep at hBud ⊢
@@ -448,7 +469,8 @@ theorem form_step {cfg : Cfg} {n : Net} {x : Nat} {st : NetStation} {l : Int} (h
         omega)
     refine ⟨n', _, hp, hseen, hnP, ?_⟩
     unfold FormOut
-    refine Or.inr ⟨.scan st.s.p.address, now + (cfg.b33 : Nat), hS, ⟨rfl, rfl⟩, ringView_claim hv, rfl, .inr (.inl rfl), ?_⟩
+    refine Or.inr ⟨.scan st.s.p.address, now + (cfg.b33 : Nat), hS, ⟨rfl, rfl⟩, ringView_claim hv, rfl, .inr (.inl rfl), ?_,
+      (fun h => by cases h), (fun _ => by omega)⟩
     simp only [SStage.wait, SStage.rest]
     push_cast at hB ⊢
     omega
@@ -474,7 +496,7 @@ theorem form_step {cfg : Cfg} {n : Net} {x : Nat} {st : NetStation} {l : Int} (h
       cases this
     | ok c =>
       obtain ⟨n', hp, hseen, hout⟩ := scanStep _ 1 cur (by rw [hsame]) hs.2 (by omega)
-        (by simp only [SStage.wait]; push_cast at hB ⊢; omega) c hdc (by rw [hd0]; exact hdc)
+        (by simp only [SStage.wait]; push_cast at hB ⊢; omega) (by simp only [SStage.slack]; omega) c hdc (by rw [hd0]; exact hdc)
       exact ⟨n', c, hp, hseen, hnP, hout⟩
   | await a =>
     simp only [SStage.ok, SStage.wait, SStage.rest] at hs hw hB hnP
@@ -495,7 +517,7 @@ theorem form_step {cfg : Cfg} {n : Net} {x : Nat} {st : NetStation} {l : Int} (h
       cases this
     | ok c =>
       obtain ⟨n', hp, hseen, hout⟩ := scanStep _ 0 a rfl hs.2 (by omega)
-        (by simp only [SStage.wait]; push_cast at hB ⊢; omega) c hdc (by rw [hd0]; exact hdc)
+        (by simp only [SStage.wait]; push_cast at hB ⊢; omega) (by simp only [SStage.slack]; omega) c hdc (by rw [hd0]; exact hdc)
       exact ⟨n', c, hp, hseen, hnP, hout⟩
   | done =>
     simp only [SStage.ok, SStage.wait, SStage.rest] at hs hw hB hnP
@@ -509,10 +531,13 @@ theorem form_step {cfg : Cfg} {n : Net} {x : Nat} {st : NetStation} {l : Int} (h
       (fun b hb => by cases hb)
     refine ⟨n', _, hp, hseen, hnP, ?_⟩
     unfold FormOut
-    refine Or.inr ⟨.pass, l, hS, rfl, hv, rfl, .inl rfl, ?_⟩
-    simp only [SStage.wait, SStage.rest]
-    push_cast at hB ⊢
-    omega
+    refine Or.inr ⟨.pass, l, hS, rfl, hv, rfl, .inl rfl, ?_, fun _ => ⟨rfl, ?_⟩, fun h => absurd rfl h⟩
+    · simp only [SStage.wait, SStage.rest]
+      push_cast at hB ⊢
+      omega
+    · simp only [SStage.wait, SStage.slack]
+      push_cast
+      omega
   | pass =>
     simp only [SStage.ok, SStage.wait, SStage.rest] at hs hw hB hnP
     obtain ⟨c', hc', hinv', -⟩ := pollInner_good { s := st.s, apps := st.apps, rx := [] } now false h.inv rfl
@@ -592,10 +617,10 @@ theorem solo_forms {cfg : Cfg} (hok : cfg.Ok) (x ts hsa : Nat) (B : Int) :
     obtain ⟨n', c, hp, hseen, hnow, hout⟩ := form_step h hok stage hs hv B now hlt hle hB
     have hrg := SStage.rest_ge cfg st.s.p.address st.s.p.hsa stage
     refine ⟨n', c, hp, by omega, ?_, ?_⟩
-    · rcases hout with ⟨-, b, -⟩ | ⟨_, _, -, -, -, -, b, -⟩
+    · rcases hout with ⟨-, b, -⟩ | ⟨_, _, -, -, -, -, b, -, -, -⟩
       · exact .inr (.inl b)
       · exact b
-    · rcases hout with ⟨a1, a2, a3, a4, a5⟩ | ⟨stage', l', hS, hs', hv', hp', -, hB'⟩
+    · rcases hout with ⟨a1, a2, a3, a4, a5⟩ | ⟨stage', l', hS, hs', hv', hp', -, hB', -, -⟩
       · exact .inl ⟨a1, a2, a3, solo_regular x rest n' (upSt st c) a5 h.alive h.online a4⟩
       · refine .inr ⟨SStage.ok_state hs', ?_⟩
         have e1 : (upSt st c).s.p.address = st.s.p.address := by show c.s.p.address = _; rw [hp']
